@@ -121,3 +121,14 @@ PROPS = {
 
 for _p in PROPS.values():
     _p.setdefault("profiles", list(DEFAULT_PROFILES))
+
+# coverage-guided differential runs (tools/ckc-fuzz) that SUPPORT the sampled parts of the implementation-vs-property
+# sweep; each target compares the crate with a specification written out in the target, confined to one property's
+# comparisons by CKC_FUZZ_PROP.  Never a proof, never the deciding method.
+FUZZ = {
+    "C01": ["rank"], "C02": ["rank"], "C03": ["rank"], "C08": ["rank", "words"], "C09": ["rank"],
+    "C04": ["words"], "C05": ["words"], "C10": ["words"], "C11": ["words"], "C19": ["hist", "words"],
+    "C12": ["text"], "C14": ["sets", "words"], "C15": ["sets", "text", "words"], "C16": ["sets"],
+}
+for _k, _v in FUZZ.items():
+    PROPS[_k]["fuzz"] = _v
